@@ -203,7 +203,85 @@ fn gen_op(rng: &mut Rng, sc: &ThreadScenario, pal: &[u8], depth: usize) -> Op {
     }
 }
 
+/// High-contention scenario for the Miri batch: one small searcher (kind
+/// cycling with the index), 2-3 threads doing plain searches over haystacks
+/// rich in failure transitions at the same time. Cheap to interpret, and
+/// every thread exercises the same shared structures concurrently.
+pub fn gen_race(seed: u64, idx: u64) -> ThreadScenario {
+    let mut rng = Rng::for_run(seed, 173, idx);
+    let r = &mut rng;
+    let pal: Vec<u8> = if r.chance(1, 2) { vec![b'a', b'b'] } else { vec![b'a', b'b', b'c'] };
+    let np = r.range(3, 5);
+    let base: Vec<u8> = (0..6).map(|_| *r.pick(&pal)).collect();
+    let mut patterns: Vec<Vec<u8>> = Vec::new();
+    for i in 0..np {
+        let p: Vec<u8> = match r.below(3) {
+            0 => base[..r.range(2, 5)].to_vec(),
+            1 => base[r.range(0, 3)..].to_vec(),
+            _ => (0..r.range(2, 5)).map(|_| *r.pick(&pal)).collect(),
+        };
+        if !patterns.contains(&p) || i == 0 {
+            patterns.push(p);
+        }
+    }
+    let (surface, kind, packed) = match idx % 7 {
+        0 => (Surface::Top, Kind::Noncontiguous, false),
+        1 => (Surface::Noncontiguous, Kind::Auto, false),
+        2 => (Surface::Top, Kind::Contiguous, false),
+        3 => (Surface::Contiguous, Kind::Auto, false),
+        4 => (Surface::Top, Kind::Auto, false),
+        5 => (Surface::Top, Kind::Auto, true),
+        _ => (Surface::Top, Kind::Dfa, false),
+    };
+    let opts = BuildOpts {
+        surface,
+        kind,
+        match_kind: if packed { MKind::LeftmostFirst } else { *r.pick(&[MKind::Standard, MKind::LeftmostFirst, MKind::LeftmostLongest]) },
+        start_both: false,
+        case_insensitive: false,
+        dense_depth: *r.pick(&[None, Some(0), Some(1)]),
+        byte_classes: true,
+        prefilter: r.chance(1, 2),
+    };
+    let mut sc = ThreadScenario {
+        prop: "C17".into(),
+        origin: format!("race seed={} idx={}", seed, idx),
+        searchers: vec![SearcherSpec { patterns: patterns.clone(), opts, packed }],
+        fixed_hays: Vec::new(),
+        threads: Vec::new(),
+        slots: 0,
+        policy: Policy::Random,
+        sched_seed: r.next_u64(),
+        density: 1,
+        change_points: Vec::new(),
+        stall: None,
+        decisions: None,
+    };
+    let nthreads = r.range(2, 3);
+    for _ in 0..nthreads + 1 {
+        let mut planted = Vec::new();
+        let target = r.range(40, 72);
+        let h = gen_stream(r, &pal, &patterns, target, false, &mut planted);
+        sc.fixed_hays.push(h);
+    }
+    for t in 0..nthreads {
+        let q = |h: usize| Search { s: 0, hay: Hay::Fixed(h), span: None, anchored: false, earliest: false };
+        let mut ops = vec![Op::Iter { kind: IterKind::Find, q: q(t), limit: None }];
+        match r.below(4) {
+            0 => ops.push(Op::Find(q(nthreads))),
+            1 => ops.push(Op::Iter { kind: if packed { IterKind::Find } else { IterKind::OverlappingIter }, q: q((t + 1) % nthreads), limit: None }),
+            2 => ops.push(Op::WithClone(Box::new(Op::Iter { kind: IterKind::Find, q: q(nthreads), limit: None }))),
+            _ => ops.push(Op::Iter { kind: IterKind::Find, q: q(nthreads), limit: None }),
+        }
+        sc.threads.push(ops);
+    }
+    sc
+}
+
 pub fn gen_thread(class: &str, seed: u64, idx: u64) -> ThreadScenario {
+    if class == "race" {
+        return gen_race(seed, idx);
+    }
     let stream_id = match class {
         "hist" => 171,
         "miri" => 172,
@@ -317,6 +395,38 @@ pub fn gen_thread(class: &str, seed: u64, idx: u64) -> ThreadScenario {
             .unwrap_or(0);
         let pb = r.range(after_last_start, sc.threads[tb].len());
         sc.threads[tb].insert(pb, Op::ResumeIter { slot });
+    }
+    if class == "miri" {
+        // the shipped 64 KiB roll buffer (allocation, scribbling) is far too
+        // expensive to interpret: always use a small capacity here
+        fn fix_src(src: &mut IterSrc) {
+            if let IterSrc::Stream(p) = src {
+                if p.sc.spare.is_none() || p.sc.spare.unwrap() > 8 {
+                    p.sc.spare = Some(2);
+                }
+            }
+        }
+        fn fix(op: &mut Op) {
+            match op {
+                Op::Stream(p) => {
+                    if p.sc.spare.is_none() || p.sc.spare.unwrap() > 8 {
+                        p.sc.spare = Some(2);
+                    }
+                }
+                Op::Interleave2 { a, b } => {
+                    fix_src(a);
+                    fix_src(b);
+                }
+                Op::WithClone(inner) => fix(inner),
+                Op::StartIter { src, .. } => fix_src(src),
+                _ => {}
+            }
+        }
+        for t in sc.threads.iter_mut() {
+            for op in t.iter_mut() {
+                fix(op);
+            }
+        }
     }
     // scheduling policy
     if r.chance(2, 5) {
